@@ -250,6 +250,68 @@ def _model_match(case, model, impl):
     return True
 _s.model_match = _model_match
 
+# --- the env-filter extended in place behind a reload handle (Handle::modify + add_directive) -------------------------------
+from checks import C11 as _c11
+def gen_envmodify_case(rng, idx):
+    """an `A` case of C11's span-scoped stream in which directives are ADDED to the running filter between the operations; half of
+    the additions are written to concern a span callsite that was already hit, with a field value / level of their own"""
+    while True:
+        base = _c11.gen_dyn_case(rng)
+        if base.startswith('A '): break
+    head, ops = base.split(' ;; ')
+    ops = [o for o in ops.split(' ; ') if o.strip()]
+    out = []
+    seen_spans = []
+    for op in ops:
+        w = op.split()
+        if w[0] == 'sp': seen_spans.append(w)
+        out.append(op)
+        if rng.random() < 0.22:
+            if seen_spans and rng.random() < 0.6:
+                w = rng.choice(seen_spans)       # sp k name target level fields vals
+                names = [] if w[5] == '-' else w[5].split('+')
+                f = '-'
+                if names and rng.random() < 0.7:
+                    n = rng.choice(names); f = '%s=%s' % (n, rng.choice(['7', '8', 'true'] if n == 'id' else ['true', 'false']))
+                    if n == 'id' and f.endswith('true'): f = 'id=7'
+                d = (rng.choice(['-', w[3]]), w[2], f, rng.randrange(2, 6))
+            else:
+                d = _c11.gen_dyn_directives(rng)[0]
+            out.append('ad D %s %s %s %d' % d)
+            # … and, most of the time, a span of the concerned callsite created right afterwards with an event inside it
+            if seen_spans and rng.random() < 0.7:
+                w = rng.choice(seen_spans)
+                k = 100 + len(out)
+                names = [] if w[5] == '-' else w[5].split('+')
+                vals = '+'.join('%s=%s' % (n, rng.choice(['7', '8']) if n == 'id' else rng.choice(['true', 'false'])) for n in names) or '-'
+                out.append('sp %d %s %s %s %s %s' % (k, w[2], w[3], w[4], w[5], vals))
+                out.append('en %d' % k)
+                out.append('ev event %s %d -' % (w[3], rng.randrange(2, 6)))
+                out.append('ex %d' % k)
+    return head + ' ;; ' + ' ; '.join(out)
+
+def gen_envmodify(rng, tier):
+    n = 1200 if tier == 'quick' else 30000
+    i = 0
+    while i < n:
+        c = gen_envmodify_case(rng, i)
+        if ' ad ' in c and _valid_envmodify(c):
+            yield c; i += 1
+
+def _valid_envmodify(case):
+    return case.startswith('A ') and _c11.valid_dyn(' ; '.join(o for o in case.split(' ;; ')[1].split(' ; ') if not o.startswith('ad ')).join([case.split(' ;; ')[0] + ' ;; ', '']))
+
+def _nontrivial_envmodify(case, out):
+    # a directive added while running, and an emission enabled after it and one not
+    ops = case.split(' ;; ')[1].split(' ; '); o = out.split(' ')
+    if len(ops) != len(o): return False
+    first = next((i for i, x in enumerate(ops) if x.startswith('ad ')), None)
+    return first is not None and 'e:1' in o[first:] and 'e:0' in o[first:]
+
+_em = Stream('envmodify', 'h_envdyn', mode='modeldyn', gen=gen_envmodify, nontrivial=_nontrivial_envmodify, spec_mode='specdyn')
+_em.valid_case = _valid_envmodify
+_em.shrink_keep = lambda o: o.startswith('ad ')
+
 PROPERTY = {
     'manifest': {
         'text': "Lean 4 theorems over a model of reloading on top of C07's filtering model: a stack template whose global-filter layers / per-layer filters are reloadable slots, the process-wide interest cache and MAX_LEVEL, "
@@ -257,7 +319,7 @@ PROPERTY = {
                 "reload_establishes: a returned reload leaves every cached interest and MAX_LEVEL recomputed for the new value whatever was cached before; after_return: in every history every emission is received by exactly the layers "
                 "the values installed by the returned reloads select (uses C07 isolation, C08 summaries and stack_hint_sound: MAX_LEVEL never hides a wanted emission); racing_old_or_new: for all 8 combinations of stale/fresh reads "
                 "(MAX_LEVEL, cached interest, filter value) the outcome is the old or the new verdict; gone_is_error. The model and the cache-free specification are compared with real reload handles over real macro callsites "
-                "(one process per history, three threads).",
+                "(one process per history, three threads). The env-filter extended in place behind a handle (modify + add_directive): added_directive_judges_new_spans — whatever the directive list held and however often a span callsite was hit before, after the addition the callsite is enabled and every span created from it carries the added directive's matcher; stream envmodify compares the real filter (global layer / per-layer filter behind reload::Subscriber) with the model under added directives.",
         'note': "Trusted: Lean kernel; propext/Classical.choice/Quot.sound; one reload changes one slot under its write lock and each filter callback read-locks once (the read granularity assumed by racing_old_or_new; real "
                 "preemption inside an emission is exercised only by the stress run, not enumerated); values are honest in C08's sense; None layers at layer level and `with()` chains are not in this model (and_then trees are). "
                 "Repaired on the way: F26 (and_then trees reported only the outermost subscriber's max level hint).",
@@ -266,12 +328,12 @@ PROPERTY = {
     'lean_module': 'TracingModel.Props.C12',
     'namespace': 'C12',
     'units': ['ReloadOrder', 'RegistryLocks'],
-    'required_theorems': ['C12.modify_order', 'C12.reload_establishes', 'C12.after_return', 'C12.emit_spec', 'C12.stack_hint_sound', 'C12.racing_old_or_new', 'C12.gone_is_error', 'C12.reload_racing_registration', 'C12.lock_discipline'],
-    'streams': [_s],
+    'required_theorems': ['C12.modify_order', 'C12.reload_establishes', 'C12.after_return', 'C12.emit_spec', 'C12.stack_hint_sound', 'C12.racing_old_or_new', 'C12.gone_is_error', 'C12.reload_racing_registration', 'C12.lock_discipline', 'C12.added_is_in_table', 'C12.added_directive_judges_new_spans'],
+    'streams': [_s, _em],
     'extra_bins': ['h_race'],
     'rule': 'one case = one history in a fresh process: a stack of 1-4 layers (plain / global filter / per-layer filtered) with 1-4 reloadable slots (reload::Subscriber as a global filter layer or as a per-layer filter), '
             '12-40 ops: emissions from 4-12 of the 30 real macro callsites on 3 threads in 2 contexts, reloads to level / Targets / EnvFilter / FilterFn / DynFilterFn / None / and-or-not values, LevelFilter::current(), '
             'dropping the collector and reloading afterwards; the pool metadata table is compared first. race phase: a reload-style mutate-then-rebuild racing with first-hit registrations of shared callsites on 2-3 real threads under generated schedules (yield hooks), judged by the transition system of C04 and the quiescent oracle. non-trivial = some (callsite, context) is judged differently after a reload',
-    'trusted_base': ['hand-written model Core/Reload.lean over Core/Filtering.lean', 'translator unit ReloadOrder (step order of Handle::modify)', 'executor h_reload (real Registry, reload handles, macro callsites, 3 threads)'],
+    'trusted_base': ['hand-written model Core/Reload.lean over Core/Filtering.lean', 'translator unit ReloadOrder (step order of Handle::modify)', 'executor h_reload (real Registry, reload handles, macro callsites, 3 threads)', 'hand-written model Core/EnvDyn.lean (op ad) and executor h_envdyn (reload::Subscriber<EnvFilter>, Handle::modify; the executor asks register_callsite again after a modify, as rebuild_interest_cache does for registered callsites)'],
     'assumptions': ['sequential consistency at op granularity (racing reads are a theorem over the model, see note)'],
 }
